@@ -91,6 +91,9 @@ def gen_doc(rng):
     if layout == "uppercase":
         head.append("<META CHARSET=\"%s\" NAME=x>" % old.upper())
         decl += 1
+    if rng.random() < 0.15:
+        head.append(rng.choice(["<meta http-equiv=\"refresh\" content=\"30; url=x\">", "<meta content=\"IE=edge\" http-equiv=\"X-UA-Compatible\">",
+                                "<meta http-equiv=\"default-style\" content=\"a\">", "<meta http-equiv=\"content-language\" content=\"charset=koi8-r\">"]))
     if layout == "mixed":
         head.append("<meta name=\"description\" content=\"%s\">" % esc(txt()))
         head.append("<link rel=\"stylesheet\" href=\"x.css\"><style>p{}</style><script>var a=1;</script>")
